@@ -1640,6 +1640,110 @@ def oracle_scalars(chk, rng, n):
     chk.count("scalar properties(oracle only)", n)
 
 
+def oracle_handoff(chk, rng, n):
+    """cross-object hand-off: a view (or its dict) read from one response is given to another response / to a new view object,
+    then one side is changed.  What the code does at this commit: every hand-off copies (the setters serialise the value into
+    the header text, the constructors and the WWWAuthenticate parameters setter wrap a private copy), so after a change through
+    one side that response's header is the serialisation of its own view and the other response's header and view are as they
+    were.  The one place that aliases by design: the SAME WWWAuthenticate object assigned to a second response serves that
+    response from then on (one on_update slot), the first keeps the text it had."""
+    from werkzeug.datastructures import ContentSecurityPolicy, HeaderSet, ResponseCacheControl, WWWAuthenticate
+
+    def hdrs(r):
+        return sorted(r.headers.items())
+
+    for i in range(n):
+        realm = rng.choice(["r", "a b", 'q"t'])
+
+        def check(what, a, b, name, view_a, view_b, mutate_b, mutate_a):
+            """mutate through b's view: b coherent, a untouched; then through a's view: a coherent, b untouched"""
+            case = {"kind": "handoff", "how": what}
+            for who, mut, mine, view_mine, other in (("the receiver", mutate_b, b, view_b, a), ("the giver", mutate_a, a, view_a, b)):
+                before_other = hdrs(other)
+                try:
+                    mut()
+                except Exception as e:  # noqa: BLE001
+                    chk.fail("view-handoff-aliasing", f"{what}: changing {who}'s view raised {type(e).__name__}: {e}", case)
+                    return
+                want = view_mine().to_header()
+                if (mine.headers.get(name) or "") != want:
+                    chk.fail("view-handoff-aliasing", f"{what}: after a change through {who}'s view its own header is "
+                             f"{mine.headers.get(name)!r}, the view serialises to {want!r}", case)
+                    return
+                if hdrs(other) != before_other:
+                    chk.fail("view-handoff-aliasing", f"{what}: a change through {who}'s view rewrote the OTHER response's headers: "
+                             f"{before_other!r} -> {hdrs(other)!r}", case)
+                    return
+
+        # ---- WWW-Authenticate
+        for how in ("ctor(type, parameters)", "parameters = other.parameters", "www_authenticate = WWWAuthenticate(type, other.parameters)",
+                    "ctor(type, dict(parameters))"):
+            a, b = new_response(()), new_response(())
+            a.www_authenticate = WWWAuthenticate("digest", {"realm": realm, "nonce": "n"})
+            wa = a.www_authenticate
+            if how == "parameters = other.parameters":
+                b.www_authenticate = WWWAuthenticate("basic", {"realm": "x"})
+                wb = b.www_authenticate
+                wb.parameters = wa.parameters
+            else:
+                b.www_authenticate = WWWAuthenticate(wa.type, dict(wa.parameters) if "dict(" in how else wa.parameters)
+                wb = b.www_authenticate
+            check("WWWAuthenticate " + how, a, b, "WWW-Authenticate", lambda: wa, lambda: wb,
+                  lambda: wb.parameters.__setitem__("realm", "B" + str(i)), lambda: wa.parameters.update(qop="auth"))
+            if wa.parameters is wb.parameters:
+                chk.fail("view-handoff-aliasing", f"WWWAuthenticate {how}: the two objects hold the same parameters dict", {"kind": "handoff", "how": how})
+        a, b = new_response(()), new_response(())
+        a.www_authenticate = WWWAuthenticate("basic", {"realm": realm})
+        wa = a.www_authenticate
+        text_a = a.headers.get("WWW-Authenticate")
+        b.www_authenticate = wa                      # the same object: from now on it serves b
+        wa.parameters["realm"] = "moved"
+        if a.headers.get("WWW-Authenticate") != text_a or b.headers.get("WWW-Authenticate") != wa.to_header():
+            chk.fail("view-handoff-aliasing", f"the same WWWAuthenticate object assigned to a second response: first {a.headers.get('WWW-Authenticate')!r} "
+                     f"(was {text_a!r}), second {b.headers.get('WWW-Authenticate')!r}, object {wa.to_header()!r}", {"kind": "handoff", "how": "same object"})
+        # ---- Cache-Control (no setter on the response: constructor hand-off only)
+        a = new_response(())
+        a.cache_control.max_age = 5
+        a.cache_control.public = True
+        held = a.cache_control
+        cb = ResponseCacheControl(held, None)
+        before = hdrs(a)
+        cb.max_age = 7
+        cb["x"] = "1"
+        if hdrs(a) != before or held.max_age != 5 or "x" in held:
+            chk.fail("view-handoff-aliasing", f"ResponseCacheControl(other view): a change of the copy reached the original: {hdrs(a)!r}, {dict(held)!r}", {"kind": "handoff", "how": "cache_control ctor"})
+        held.no_store = True
+        if "no-store" in cb or a.headers.get("Cache-Control") != held.to_header():
+            chk.fail("view-handoff-aliasing", "ResponseCacheControl(other view): a change of the original reached the copy, or the original drifted", {"kind": "handoff", "how": "cache_control ctor"})
+        # ---- CSP
+        for attr, name in (("content_security_policy", "Content-Security-Policy"), ("content_security_policy_report_only", "Content-Security-Policy-Report-Only")):
+            for how in ("assign the view", "assign ContentSecurityPolicy(view)", "assign dict(view)"):
+                a, b = new_response(()), new_response(())
+                getattr(a, attr).default_src = "'self'"
+                ca = getattr(a, attr)
+                setattr(b, attr, ca if how == "assign the view" else ContentSecurityPolicy(ca) if "Policy(" in how else ContentSecurityPolicy(dict(ca)))
+                cb_ = getattr(b, attr)
+                check(f"{attr}: {how}", a, b, name, lambda: ca, lambda: cb_, lambda: setattr(cb_, "img_src", "x" + str(i)), lambda: setattr(ca, "script_src", "y"))
+        # ---- header sets
+        for attr, name in (("vary", "Vary"), ("allow", "Allow"), ("content_language", "Content-Language")):
+            for how in ("assign the view", "assign HeaderSet(view)", "assign list(view)"):
+                a, b = new_response(()), new_response(())
+                getattr(a, attr).add("Accept")
+                va = getattr(a, attr)
+                setattr(b, attr, va if how == "assign the view" else HeaderSet(va) if "HeaderSet(" in how else list(va))
+                vb = getattr(b, attr)
+                check(f"{attr}: {how}", a, b, name, lambda: va, lambda: vb, lambda: vb.add("Cookie" + str(i)), lambda: va.add("X"))
+        # ---- Content-Range
+        a, b = new_response(()), new_response(())
+        a.content_range.set(0, 10, 100)
+        ra = a.content_range
+        b.content_range = ra
+        rb = b.content_range
+        check("content_range: assign the view", a, b, "Content-Range", lambda: ra, lambda: rb, lambda: rb.set(1, 2, 3), lambda: ra.set(4, 5, 6))
+        chk.case(("handoff", i, realm), nontrivial=True)
+    chk.count("cross-object hand-off of views (oracle only)", n)
+
+
 def oracle_date_grid(chk, rng, quick):
     """the date contract (http_date / parse_date) on a grid: sub-second parts next to the rounding boundaries x years next to
     the places where a float timestamp loses microsecond resolution x zones; the instant read back is the assigned instant
@@ -2023,6 +2127,7 @@ def run(chk: Check) -> None:
     oracle_mimetype_params(chk, rng, 300 if quick else 6000)
     oracle_scalars(chk, rng, 200 if quick else 4000)
     oracle_date_grid(chk, rng, quick)
+    oracle_handoff(chk, rng, 40 if quick else 800)
 
     # ---- model side
     exe = chk.build_modelrun(PID)
